@@ -147,6 +147,9 @@ def scenarios():
         "threads_same_key": ([S(1, [C(3)])], [S(1, [C(1), C(2)]), S(1, [C(1), C(2)])], [[0, 1]]),
         # ... and a third writer in another process
         "threads_and_process": ([S(1, [C(3)])], [S(1, [C(1)]), S(1, [C(1)]), S(1, [C(1)])], [[0, 1], [2]]),
+        # a second participant shelves / checks / calls the entry at EVERY point of the first participant's store
+        "store_vs_shelve": ([S(1, [C(3)])], [S(1, [C(1)]), S(1, [{"a": "shelve", "k": 1}, C(1)])]),
+        "store_vs_shelve_cb": ([S(1, [C(3)], cb="valid")], [S(1, [C(1)], cb="valid"), S(1, [{"a": "shelve", "k": 1}], cb="valid")]),
         # reduce_size with every combination of limits on an EMPTY store, next to a first caller
         "reduce_combos_empty": ([], [S(1, reduce_combos() + [C(1)]), S(1, [C(1)])]),
         # ... and on a store another participant empties between the listing and the stats
@@ -381,6 +384,9 @@ def run(ctx):
     for prep in preps:
         for sched in schedules(ctx.rng, len(prep["parts"]), prep["lens"], budget):
             jobs.append((prep, sched))
+        if prep["name"].startswith("store_vs_shelve"):
+            for a in range(0, prep["lens"][0] + 2):       # every point of the store, in every tier
+                jobs.append((prep, [0] * a + [1] * BIG + [0] * BIG))
         if prep["name"] == "reduce_age_vs_clear":
             jobs.append((prep, list(F14C_SCHEDULE)))      # the schedule of C11_no_raise_refuted_makedirs, in every tier
         if prep["name"] == "call_clear":
